@@ -184,7 +184,8 @@ def run_adaptive(case):
             exact = cf.exact_on_path(fam, base, t0, t0 + T, y0)
             errs.append(_rms(ys[-1], exact))
     cnt["adaptive_cases"] = 1
-    ctx = f"cell={zoo.cell_name(cell)} family={case['family']} tols={tols} errors={[f'{e:.3e}' for e in errs]} trials={trials}"
+    ctx = (f"cell={zoo.cell_name(cell)} family={case['family']} tols={tols} errors={[f'{e:.3e}' for e in errs]} "
+           f"trials={trials} entry={'sdeint_adjoint' if entry_kw else 'sdeint'}")
     # a tolerance is 'binding' once it makes the controller take at least twice as many trials as the loosest one
     binding = [i for i in range(len(tols)) if trials[i] >= 2 * trials[0]]
     if binding:
@@ -196,6 +197,11 @@ def run_adaptive(case):
     # monotonicity is demanded only where the tighter tolerance materially refined the schedule (>= 1.5x the trials):
     # two schedules of 3 and 4 steps are both "as coarse as it gets" and their errors differ by sampling noise only
     # (false alarm found by the thorough tier: 5.0e-2 -> 6.4e-2 with 3 -> 4 trials, then 1.3e-2, 2.1e-3, 5.9e-4)
+    if not binding and errs[0] > 1e-8 and not errs[-1] <= 0.6 * errs[0]:
+        # tightening rtol = atol from 1e-1 to 1e-5 changed neither the schedule nor the (non-negligible) error: the
+        # tolerances the user passed do not govern the solve
+        viol.append({"mechanism": f"tightening_tolerance_does_not_reduce_error:{zoo.cell_name(cell)}",
+                     "detail": "tolerances have no effect on the schedule: " + ctx})
     for k, (a, b) in enumerate(zip(errs[:-1], errs[1:])):
         if trials[k + 1] < 1.5 * trials[k]:
             continue
